@@ -602,8 +602,9 @@ class Emitter:
         # ---- W / A rewrites inside the function text
         for rid, rx, repl, count in f.rewrites:
             hits = [h for h in re.finditer(rx, text[a:loc['end']]) if m[a + h.start()] == text[a + h.start()]]
-            if len(hits) != count:
-                raise AnchorLost('%s: rewrite %s /%s/: %d matches, expected %d' % (item, rid, rx, len(hits), count))
+            lo_n, hi_n = count if isinstance(count, tuple) else (count, count)
+            if not (lo_n <= len(hits) <= hi_n):
+                raise AnchorLost('%s: rewrite %s /%s/: %d matches, expected %s' % (item, rid, rx, len(hits), count))
             for h in hits:
                 rep(a + h.start(), a + h.end(), [Chunk(h.expand(repl), 'rewrite', item=item)])
             self.rewrite_counts[rid] = self.rewrite_counts.get(rid, 0) + len(hits)
